@@ -1,5 +1,24 @@
+let iter_lines file f =
+  let ic = open_in file in
+  (try while true do
+       let line = input_line ic in
+       if String.length line > 0 then f line
+     done with End_of_file -> ());
+  close_in ic
+
 let () =
   match Array.to_list Sys.argv with
   | [_; "--alphabet"] -> Common.print_alphabet ()
   | [_; "span"; file] -> Span_driver.main file
-  | _ -> prerr_endline "usage: driver (--alphabet | span FILE)"; exit 2
+  | [_; "parse"; file] ->
+    iter_lines file (fun line ->
+      match Lex_driver.run_line line with
+      | Some out -> print_endline out
+      | None ->
+        match Ctx_driver.run_line line with
+        | Some out -> print_endline out
+        | None ->
+          match Parse_driver.run_line line with
+          | Some out -> print_endline out
+          | None -> print_endline "(unsupported-case)")
+  | _ -> prerr_endline "usage: driver (--alphabet | span FILE | parse FILE)"; exit 2
